@@ -11,7 +11,7 @@ VERIF = os.path.dirname(HERE)
 sys.path.insert(0, HERE)
 import build as buildmod  # noqa: E402
 from corpus import (  # noqa: E402
-    builder_expected, enum_present, fcount, ffootprint, fpositions, fstride, fwidth, is_native, storage_of,
+    builder_expected, enum_present, fcount, ffootprint, fpositions, fstride, fwidth, is_native, self_overlapping, storage_of,
 )
 
 # ------------------------------------------------------------------ bit maps
@@ -1327,11 +1327,11 @@ def analyse_positive(ctx, want_props):
                 continue
             if want_props & {"C01", "C03", "C04", "C05", "C08", "C16", "C12"}:
                 for f in d["fields"]:
-                    if "r" in f["access"]:
+                    if "r" in f["access"] and not self_overlapping(f):
                         check_getter(ctx, cr, d, f)
             if want_props & {"C02", "C03", "C04", "C05", "C08", "C16", "C12", "C11"}:
                 for f in d["fields"]:
-                    if "w" in f["access"]:
+                    if "w" in f["access"] and not self_overlapping(f):
                         check_writers(ctx, cr, d, f)
             if want_props & {"C06", "C11", "C15", "C16"}:
                 check_basics(ctx, cr, d)
